@@ -358,12 +358,13 @@ def extra_layouts(ctx, st, data0):
         ctx.corr_cases += 1
         if got != want:
             ctx.disagree(R, "ID3Header: model %s, mutagen %s" % (got, want), d)
-        tag, offset = find_id3v1(io.BytesIO(f0))
-        want = "ok none" if tag is None else "ok " + zs(-offset)
-        got = ctx.model.call("id3f_find_v1", hx(f0))
-        ctx.corr_cases += 1
-        if got != want:
-            ctx.disagree(R, "find_id3v1: model %s, mutagen %s" % (got, want), d)
+        for start in (0, rng.choice([0, 1, 10, len(f0) - 131, len(f0) - 130, len(f0) - 128, len(f0) - 127, len(f0) - 124, len(f0)])):
+            tag, offset = find_id3v1(io.BytesIO(f0), start=start)
+            want = "ok none" if tag is None else "ok " + zs(-offset)
+            got = ctx.model.call("id3f_find_v1", zs(start), hx(f0))
+            ctx.corr_cases += 1
+            if got != want:
+                ctx.disagree(R, "find_id3v1(start=%d): model %s, mutagen %s" % (start, got, want), d)
 
 
 # ---------------------------------------------------------------------------------- direct oracles (no model involved)
@@ -433,6 +434,29 @@ def oracles(ctx, kind, st):
                           {"class": "tag-in-id3v2", "runner": "fam.id3f.oracle", "property": "C01", "kind": kind.name,
                            "payload": payload.hex(), "call": "ID3 with PRIV(owner='o', data=b'TAG'+b'x'*%d).save(file, padding=lambda i: 0)" % k,
                            "saved_tail": f1[-128:-100].hex()})
+            break
+    # ---- C08: module-level delete on a file that is nothing but an ID3v2 tag whose frame data has TAG 128 bytes before EOF
+    from mutagen.id3 import delete as id3_delete
+    for payload in (b"", b"\xff\xfb\x90\x64" + bytes(20)):
+        k = 125 - len(payload)
+        t = ID3()
+        t.add(PRIV(owner="o", data=b"TAG" + b"x" * k))
+        b = io.BytesIO(bytes(300))
+        t.save(b, v1=0, padding=lambda info: 0)
+        f0 = b.getvalue()[:-300] + payload          # a valid file: tag + short payload
+        b = io.BytesIO(f0)
+        ctx.oracle_cases += 1
+        try:
+            id3_delete(b)
+            bad = b.getvalue() != payload
+            exc = None
+        except Exception as e:
+            bad, exc = True, type(e).__name__
+        if bad:
+            ctx.violation("oracle", "C08 ID3: delete did not remove exactly the ID3v2 tag (TAG inside the ID3v2 tag taken for ID3v1 by delete)",
+                          {"class": "tag-in-id3v2-delete", "runner": "fam.id3f.oracle", "property": "C08", "kind": kind.name,
+                           "payload": payload.hex(), "file_len": len(f0), "exc": exc, "left_len": len(b.getvalue()),
+                           "call": "mutagen.id3.delete(file) on ID3v2.4 tag {PRIV owner 'o' data b'TAG'+b'x'*%d, no padding} + payload" % k})
             break
     # ---- C07: the default policy is fed the file size including the old tag
     b = io.BytesIO(audio)
